@@ -10,6 +10,7 @@
 -/
 import SyModel.Lemmas.Engine
 import SyModel.Lemmas.EnginePath
+import SyModel.Lemmas.EngineDirBase
 namespace SyModel.Engine
 
 /-! ### `mkdirAll` -/
@@ -275,7 +276,7 @@ theorem perform_delete {cfg : Cfg} {w : World} {t : Task} (h : t.act = .delete) 
 def performCU (cfg : Cfg) (w : World) (t : Task) : Option World :=
   match t.payload with
   | .nothing => some w
-  | .dir => (mkdirAll w.dst t.rel).map fun d => { w with dst := d }
+  | .dir => (mkdirAll (dirBase t.act w.dst t.rel) t.rel).map fun d => { w with dst := d }
   | .symlink text => writeSymlink w t.rel text
   | .file m nlink =>
     if (t.act = .create || t.act = .update) && cfg.hardlinks && decide (1 < nlink) then
@@ -381,20 +382,27 @@ theorem performCU_dir {cfg : Cfg} {w w' : World} {t : Task} (hp : t.payload = .d
     (h : performCU cfg w t = some w') :
     (t.rel ≠ [] → w'.dst.get? t.rel = some .dir) ∧ w'.linkMap = w.linkMap := by
   unfold performCU at h; simp only [hp] at h
-  cases hm : mkdirAll w.dst t.rel with
+  cases hm : mkdirAll (dirBase t.act w.dst t.rel) t.rel with
   | none => simp [hm] at h
   | some d =>
     simp only [hm, Option.map_some, Option.some.injEq] at h; subst h
     exact ⟨fun hne => mkdirAll_dirs hm _ hne (isPrefix_refl _), rfl⟩
 
-/-- a directory creation completes only where nothing or a directory was -/
+/-- a directory task completes only where nothing or a directory was — or, for an update (the replacement of a
+    destination link standing where the source has a directory, fix 862af11), a symlink -/
 theorem performCU_dir_pre {cfg : Cfg} {w w' : World} {t : Task} (hp : t.payload = .dir)
     (h : performCU cfg w t = some w') (hne : t.rel ≠ []) :
-    w.dst.get? t.rel = none ∨ w.dst.get? t.rel = some .dir := by
+    w.dst.get? t.rel = none ∨ w.dst.get? t.rel = some .dir ∨
+      (t.act = .update ∧ ∃ s, w.dst.get? t.rel = some (.symlink s)) := by
   unfold performCU at h; simp only [hp] at h
-  cases hm : mkdirAll w.dst t.rel with
+  cases hm : mkdirAll (dirBase t.act w.dst t.rel) t.rel with
   | none => simp [hm] at h
-  | some d => exact mkdirAll_pre hm t.rel hne (isPrefix_refl _)
+  | some d =>
+    rcases dirBase_get?_self t.act w.dst t.rel with he | ⟨hu, hs, _⟩
+    · rcases mkdirAll_pre hm t.rel hne (isPrefix_refl _) with h1 | h1
+      · exact Or.inl (he ▸ h1)
+      · exact Or.inr (Or.inl (he ▸ h1))
+    · exact Or.inr (Or.inr ⟨hu, hs⟩)
 
 theorem performCU_symlink {cfg : Cfg} {w w' : World} {t : Task} {text : String}
     (hp : t.payload = .symlink text) (h : performCU cfg w t = some w') :
@@ -413,11 +421,13 @@ theorem performCU_frame {cfg : Cfg} {w w' : World} {t : Task} (h : performCU cfg
   | nothing => simp only [hp, Option.some.injEq] at h; subst h; exact ⟨FrameAt.rfl' _ _, fun hn => absurd rfl hn⟩
   | dir =>
     simp only [hp] at h
-    cases hm : mkdirAll w.dst t.rel with
+    cases hm : mkdirAll (dirBase t.act w.dst t.rel) t.rel with
     | none => simp [hm] at h
     | some d =>
       simp only [hm, Option.map_some, Option.some.injEq] at h; subst h
-      exact ⟨frameAt_mkdir hm, fun _ x hx hpx _ => mkdirAll_dirs hm x hx hpx⟩
+      refine ⟨fun x hx => ?_, fun _ x hx hpx _ => mkdirAll_dirs hm x hx hpx⟩
+      have := frameAt_mkdir hm x hx
+      rwa [dirBase_get?_ne _ _ _ _ hx] at this
   | symlink text =>
     simp only [hp] at h
     obtain ⟨d, hm, _, hd, _⟩ := writeSymlink_spec h
